@@ -134,8 +134,7 @@ def run(ctx):
                             {"initial/" + r_: t for r_, t in ws.files.items()} |
                             {f"step{i:02d}_{s['op']}/{s['rel']}": s["text"] for i, s in enumerate(steps[:k + 1])})
             vh.call(op="drop_db", db=db)
-            if h < 2:
-                ctx.sample({"workspace": ws.spec, "history": [(s["op"], s["rel"]) for s in steps]})
+            ctx.sample({"workspace": ws.spec, "history": [(s["op"], s["rel"]) for s in steps]})
             ctx.count("histories")
             shutil.rmtree(root, ignore_errors=True)
         for i in range(n_lsp):
